@@ -616,3 +616,37 @@ func isBoolVal(v Value) bool {
 	b, ok := t.Underlying().(*types.Basic)
 	return ok && b.Info()&types.IsBoolean != 0
 }
+
+// Bounds returns the integer bounds the path's zone puts on v (each side may be absent).
+func Bounds(st *State, v Value) (lo, hi int64, hasLo, hasHi bool) {
+	if i, ok := ConstInt(v); ok {
+		return i, i, true, true
+	}
+	l, ok := ToLin(v)
+	if !ok || l.Var == "" || !l.IsInt {
+		return
+	}
+	i, ok1 := st.Zone.idx[l.Var]
+	z := st.Zone.idx[zeroVar]
+	if !ok1 {
+		return
+	}
+	up, dn := st.Zone.d[i][z], st.Zone.d[z][i] // x - 0 <= up ; 0 - x <= dn
+	if l.Neg {
+		// v = -x + off
+		if !dn.inf {
+			hi, hasHi = dn.c+l.Off, true
+		}
+		if !up.inf {
+			lo, hasLo = -up.c+l.Off, true
+		}
+		return
+	}
+	if !up.inf {
+		hi, hasHi = up.c+l.Off, true
+	}
+	if !dn.inf {
+		lo, hasLo = -dn.c+l.Off, true
+	}
+	return
+}
